@@ -177,7 +177,11 @@ pub(crate) fn oracle_enet(ctx: &mut Ctx, em_counts: &mut Vec<String>, c: &EnetCa
         // the running residual drifts from y − Xw by rounding of the updates `r ± w_j·x_j`: the recomputed gap
         // is allowed `rel·(‖y‖² + ‖y‖·Σ|w_j|‖x_j‖)` (the second term only matters on badly conditioned designs)
         let wx: f64 = (0..p).map(|j| w[j].abs() * dot(&col(&c.x, j), &col(&c.x, j)).sqrt()).sum();
-        let close = |a: f64, b: f64| (a - b).abs() <= c.rel * (s + s.sqrt() * wx) + 1e-9 * b.abs() + 1e-12;
+        // ... and the rescaling constant l1/‖Xᵀr − l2·w‖∞ moves with the residual by a relative
+        // `max‖x_j‖·δr / max(‖Xᵀr − l2 w‖∞, l1)`, which multiplies terms of size ‖y‖² (capped at 1: on designs
+        // where this sensitivity is of order one the recomputation decides nothing)
+        let sens = (xscale * c.rel * wx / dual_norm(&c.x, w, &r, l2).max(l1).max(1e-300)).min(1.0);
+        let close = |a: f64, b: f64| (a - b).abs() <= c.rel * (s + s.sqrt() * wx) + sens * s + 1e-9 * b.abs() + 1e-12;
         ctx.require(close(gap, g2) || (near_stationary && close(gap, g1)), "gap_is_gap_of_result", &class, || format!("reported gap {} but recomputed {}", gap, g2));
     }
     // (2) non-negative
@@ -628,11 +632,13 @@ fn op_ols_oracle(em: &mut Em, rng: &mut Rng) {
     em.count(&format!("ols:design={}{}", kind_name(kind), if scaled { "+scaled" } else { "" }));
     let class = format!("ols:icpt={}", icpt as u8);
     let op = format!("#ols X={} y={} icpt={}", rows_hex(&x), vec_hex(&y), icpt as u8);
+    let mut fitted = false;
     em.case_valid(op, &class, |ctx| {
         let ds = Dataset::new(x.clone(), y.clone());
         match LinearRegression::new().with_intercept(icpt).fit(&ds) {
             Err(e) => ctx.fail("fit_ok", &class, format!("{:?}", e)),
             Ok(m) => {
+                fitted = true;
                 let w = m.params().to_vec();
                 let b = m.intercept();
                 let yv = y.to_vec();
@@ -669,6 +675,9 @@ fn op_ols_oracle(em: &mut Em, rng: &mut Rng) {
         }
         "-".to_string()
     });
+    if fitted {
+        em.count("ols:fitted");
+    }
 }
 
 /// exact rank test over the rationals on the unscaled integer pattern is not available after scaling;
@@ -802,7 +811,8 @@ pub(crate) fn oracle_mtl(ctx: &mut Ctx, counts: &mut Vec<String>, c: &MtlCase, w
         let near_stationary = l1 == 0.0 && dual_norm_mtl(x, w, &r, l2) <= 1e3 * c.rel * xscale * (s.sqrt() + 1e-300);
         let g1 = gap_mtl_const(&yc, w, &r, l1, l2, 1.0);
         let wx: f64 = (0..p).map(|j| (0..t).map(|k| w[[j, k]] * w[[j, k]]).sum::<f64>().sqrt() * dot(&col(x, j), &col(x, j)).sqrt()).sum();
-        let close = |a: f64, b: f64| (a - b).abs() <= c.rel * (s + s.sqrt() * wx) + 1e-9 * b.abs() + 1e-12;
+        let sens = (xscale * c.rel * wx / dual_norm_mtl(x, w, &r, l2).max(l1).max(1e-300)).min(1.0);
+        let close = |a: f64, b: f64| (a - b).abs() <= c.rel * (s + s.sqrt() * wx) + sens * s + 1e-9 * b.abs() + 1e-12;
         ctx.require(close(gap, g2) || (near_stationary && close(gap, g1)), "gap_is_gap_of_result", &class, || format!("reported {} recomputed {}", gap, g2));
     }
     ctx.require(gap >= -slack, "gap_nonneg", &class, || format!("gap {}", gap));
